@@ -198,10 +198,45 @@ def run(prog, ctx):
                     if gm != m:
                         bad = "(%r,w%d)+(%r,w%d) gives mean %r" % (m, w1, m, w2, gm)
                         break
+                # finite means of huge magnitude and opposite sign: the difference overflows in either direction, the merged mean
+                # must still be the (finite) weighted mean
+                n_a += 1
+                bad_h = None
+                for m1, m2 in ((1e308, -1e308), (-1e308, 1e308), (1.7e308, -1.7e308), (-1.2e308, 1.6e308), (1e308, 9e307)):
+                    for w1, w2 in ((1, 1), (3, 1), (2, 7)):
+                        env = {"@prog": prog, "@ieee": True, "self.mean": m1, "self.weight": w1, "other.mean": m2, "other.weight": w2,
+                               "@fn:get": lambda x: x, "@fn:mul_add": lambda a, b, c: a * b + c,
+                               "@fn:checked_add": lambda a, b: a + b, "@fn:expect": lambda a, *r: a}
+                        gm = formula.evaluate(em, env)
+                        want = m1 * (w1 / (w1 + w2)) + m2 * (w2 / (w1 + w2))
+                        if not (isinstance(gm, float) and math.isfinite(gm) and abs(gm - want) <= 1e-9 * max(abs(m1), abs(m2))):
+                            bad_h = bad_h or "(%r,w%d)+(%r,w%d) gives mean %r, expected %r" % (m1, w1, m2, w2, gm, want)
+                law("C15.A", "huge", bad_h is None, "Centroid::add of finite means of huge magnitude does not give the finite weighted mean: %s" % bad_h, add.id)
                 law("C15.A", "ties", bad is None, "Centroid::add of two centroids with the same mean does not return exactly that mean: %s" % bad, add.id)
             except formula.Uneval as u:
                 law("C15.A", "add", None, "Centroid::add not evaluable: %s" % u)
-    res.rule("C15.A", n_a, 2, "Centroid::add")
+    res.rule("C15.A", n_a, 3, "Centroid::add")
+
+    # ---------------- C15.W who fills the centroid list: only the routine that applies the merge criterion (and constructors, which
+    # build a fresh value) may put centroids into `self.centroids`; any other `&mut self` method that stores into the list, pushes /
+    # extends it, or replaces `*self` wholesale by-passes the size control (clearing, reversing, sorting, reserving are fine)
+    n_w = 0
+    SHRINK_OR_PERMUTE = ("clear", "reverse", "sort_by", "sort_unstable_by", "sort", "truncate", "reserve", "reserve_exact", "shrink_to_fit", "drain", "retain", "dedup", "swap", "len", "is_empty", "iter", "capacity", "as_slice", "deref", "first", "last", "get", "binary_search_by")
+    for f in C.fns_of(prog, T):
+        if f.promoted or f.argc < 1 or not f.local_ty(1).startswith("&mut") or f.id == dm.id or "{closure" in f.id:
+            continue
+        for b in sorted(C.buffer_mutations(f, "centroids")):
+            t = f.blocks[b].term
+            nm = (t[1].get("callee") or "").rsplit("::", 1)[-1] if t[0] == "call" else ""
+            stores = any(st[0] == "=" and not isinstance(st[1], int) for st in f.blocks[b].stmts)
+            if nm in SHRINK_OR_PERMUTE and not stores:
+                continue
+            n_w += 1
+            law("C15.W", "%s" % f.id, False, "%s puts centroids into the list without going through the merge criterion of %s (%s)" % (
+                f.id, dm.id, "call of `%s`" % nm if nm and not stores else "direct store"), f.id)
+    n_w += 1
+    law("C15.W", "owner", True, "")
+    res.rule("C15.W", n_w, 1, "writers of the centroid list other than the merge routine")
 
     # ---------------- C15.O sorted before the merge loop
     n_o = 0
